@@ -47,6 +47,9 @@ type Behaviour struct {
 	Level   int32 `json:"level,omitempty"`
 	// Stream is the list of replies of a server-stream handler.
 	Stream []StreamItem `json:"stream,omitempty"`
+	// EndGate makes a server-stream handler wait for gate number len(Stream)
+	// before it returns (with its error or nil).
+	EndGate bool `json:"end_gate,omitempty"`
 }
 
 type bkey struct {
@@ -426,6 +429,9 @@ func (s *impl) stream(ctx gorums.ServerCtx, method string, req *puppet.Req, send
 			s.c.Log.Add(Event{Kind: "exit", Server: s.i, Conn: conn, Call: call, Method: method, Token: req.GetToken(), Seq: req.GetSeq(), Note: "send failed: " + err.Error()})
 			return err
 		}
+	}
+	if b.EndGate {
+		s.wait(gkey{s.i, req.GetToken(), len(items)}, true, 0)
 	}
 	err := s.errOf(b)
 	ev := Event{Kind: "exit", Server: s.i, Conn: conn, Call: call, Method: method, Token: req.GetToken(), Seq: req.GetSeq()}
